@@ -250,9 +250,39 @@ fn split_for(kind: Kind, t: &[u8]) -> Split5 {
 	}
 }
 
-/// C10, oracle 3: list semantics on the literal split modulo shield
-/// equivalence, frame on the other four components.
-pub fn check_path_step(kind: Kind, pre: &[u8], post: &[u8], op: &PathOp, unwound: bool, stats: &mut Stats) -> Result<(), Fail> {
+/// The set of segment lists the specification may be in, threaded through the
+/// operations of one burst. A leading `.` read from text may be a shield or a
+/// segment (both readings are kept); a shield the library inserted during the
+/// burst is not a segment, so that e.g. push("") followed by pop() must give
+/// back the original sequence.
+#[derive(Clone, Debug)]
+pub struct PathModel {
+	pub cands: Vec<Segs>,
+}
+
+impl PathModel {
+	pub fn from_text(path: &[u8]) -> PathModel {
+		let (_, segs) = path_segs(path);
+		let st = strip(&segs).to_vec();
+		let mut cands = vec![segs];
+		if cands[0] != st {
+			cands.push(st);
+		}
+		PathModel { cands }
+	}
+}
+
+fn render_shielded(abs: bool, segs: &Segs) -> Vec<u8> {
+	let mut v = segs.clone();
+	if !v.is_empty() && (v[0].contains(&b':') || (v[0].is_empty())) {
+		v.insert(0, b".".to_vec());
+	}
+	render(abs, &v)
+}
+
+/// C10, oracle 3: list semantics modulo shield equivalence, frame on the
+/// other four components.
+pub fn check_path_step(kind: Kind, pre: &[u8], post: &[u8], op: &PathOp, unwound: bool, model: &mut PathModel, stats: &mut Stats) -> Result<(), Fail> {
 	let a = split_for(kind, pre);
 	let b = split_for(kind, post);
 	for (name, x, y) in [
@@ -276,7 +306,7 @@ pub fn check_path_step(kind: Kind, pre: &[u8], post: &[u8], op: &PathOp, unwound
 	}
 	let pp = a.path(pre);
 	let qp = b.path(post);
-	let (abs, segs) = path_segs(pp);
+	let abs = pp.first() == Some(&b'/');
 	let (abs2, segs2) = path_segs(qp);
 	let follows_auth = a.authority.is_some();
 	if follows_auth && !qp.is_empty() && !abs2 {
@@ -297,7 +327,11 @@ pub fn check_path_step(kind: Kind, pre: &[u8], post: &[u8], op: &PathOp, unwound
 			}
 			return Ok(());
 		}
-		PathOp::Normalize => return Ok(()), // what normalisation yields is C09; here frame only
+		PathOp::Normalize => {
+			// what normalisation yields is C09; here frame only
+			*model = PathModel::from_text(qp);
+			return Ok(());
+		}
 		PathOp::Push(s) => MPathOp::Push(s.as_bytes()),
 		PathOp::Pop => MPathOp::Pop,
 		PathOp::Clear => MPathOp::Clear,
@@ -305,6 +339,7 @@ pub fn check_path_step(kind: Kind, pre: &[u8], post: &[u8], op: &PathOp, unwound
 		PathOp::SymAppend(items, mode) => MPathOp::SymAppend(effective_items(items, *mode).iter().map(|s| s.as_bytes()).collect()),
 	};
 	if unwound {
+		*model = PathModel::from_text(qp);
 		return Ok(());
 	}
 	if !follows_auth && abs2 != abs {
@@ -316,45 +351,62 @@ pub fn check_path_step(kind: Kind, pre: &[u8], post: &[u8], op: &PathOp, unwound
 	}
 	// a path after an authority is absolute; the empty one is written "" or "/"
 	let abs_eff = abs || follows_auth;
-	let mut outs = path_outcomes(abs_eff, &segs, &mop);
-	let primary = outs.len();
-	if follows_auth && pp.is_empty() {
-		// left open: `pop` on the empty path after an authority treated as empty relative
-		for o in path_outcomes(false, &segs, &mop) {
-			if !outs.contains(&o) {
-				outs.push(o);
+	let got = strip(&segs2).to_vec();
+	let mut next: Vec<Segs> = Vec::new();
+	let mut first_expected: Option<Segs> = None;
+	let mut ambiguous = false;
+	for c in &model.cands {
+		let mut outs = path_outcomes(abs_eff, c, &mop);
+		let primary = outs.len().min(1);
+		if follows_auth && pp.is_empty() {
+			// left open: `pop` on the empty path after an authority treated as empty relative
+			for o in path_outcomes(false, c, &mop) {
+				if !outs.contains(&o) {
+					outs.push(o);
+				}
+			}
+		}
+		if first_expected.is_none() {
+			first_expected = outs.first().cloned();
+		}
+		for (i, o) in outs.into_iter().enumerate() {
+			if strip(&o) == &got[..] {
+				if i >= primary {
+					ambiguous = true;
+				}
+				if !next.contains(&o) {
+					next.push(o);
+				}
 			}
 		}
 	}
-	let got = strip(&segs2);
-	for (i, o) in outs.iter().enumerate() {
-		if strip(o) == got {
-			if i > 0 {
-				stats.hit("ambiguous_accepted");
-				let _ = primary;
-			}
-			// reach probes
-			if segs2.len() > o.len() {
-				stats.hit("probe_shield_present_after");
-			}
-			return Ok(());
-		}
+	if next.is_empty() {
+		let e0 = first_expected.unwrap_or_default();
+		return Err(Fail {
+			oracle: "list_semantics",
+			message: format!(
+				"{} on segments {:?} gave {:?}",
+				op.name(),
+				model.cands[0].iter().map(|s| String::from_utf8_lossy(s).into_owned()).collect::<Vec<_>>(),
+				segs2.iter().map(|s| String::from_utf8_lossy(s).into_owned()).collect::<Vec<_>>()
+			),
+			expected: Some({
+				let mut e = pre[..a.path.start].to_vec();
+				e.extend_from_slice(&render_shielded(abs_eff && !(e0.is_empty() && pp.is_empty()), &e0));
+				e.extend_from_slice(&pre[a.path.end..]);
+				e
+			}),
+		});
 	}
-	Err(Fail {
-		oracle: "list_semantics",
-		message: format!(
-			"{} on segments {:?} gave {:?}",
-			op.name(),
-			segs.iter().map(|s| String::from_utf8_lossy(s).into_owned()).collect::<Vec<_>>(),
-			segs2.iter().map(|s| String::from_utf8_lossy(s).into_owned()).collect::<Vec<_>>()
-		),
-		expected: Some({
-			let mut e = pre[..a.path.start].to_vec();
-			e.extend_from_slice(&render(abs_eff && !(outs[0].is_empty() && pp.is_empty()), &outs[0]));
-			e.extend_from_slice(&pre[a.path.end..]);
-			e
-		}),
-	})
+	if ambiguous {
+		stats.hit("ambiguous_accepted");
+	}
+	if segs2.len() > got.len() {
+		stats.hit("probe_shield_present_after");
+	}
+	next.truncate(8);
+	model.cands = next;
+	Ok(())
 }
 
 /// C11 model: RFC 3986 section 3.2 reassembly with the one replaced part.
@@ -727,7 +779,8 @@ impl Exec {
 				}
 				if self.prop == Prop::C10 {
 					let post = self.text().to_vec();
-					if let Err(f) = check_path_step(kind, &pre, &post, op, unwound, stats) {
+					let mut pm = PathModel::from_text(split_for(kind, &pre).path(&pre));
+					if let Err(f) = check_path_step(kind, &pre, &post, op, unwound, &mut pm, stats) {
 						return violation(Prop::C10, f.oracle, idx, None, &name, f.message, Some(&pre), f.expected.as_deref(), Some(&post), sig_pre, sig_arg);
 					}
 				}
@@ -833,6 +886,7 @@ impl Exec {
 
 		// ---- C10 ----
 		// oracle 3 + 4 on run B, operation by operation
+		let mut pm = PathModel::from_text(split_for(kind, &pre).path(&pre));
 		for i in 0..ops.len() {
 			let before = b_before(i);
 			let after = b_after(i);
@@ -840,7 +894,11 @@ impl Exec {
 			let (sp, sa) = sig_of(i, before);
 			let opn = ops[i].op.name();
 			stats.tuples.insert((sp.clone(), opn.to_string(), sa.clone(), 1));
-			if let Err(f) = check_path_step(kind, before, after, &ops[i].op, unwound, stats) {
+			// Both readings of a leading '.' in the text before the edit are kept (shield or
+			// segment): the text cannot tell them apart, so no implementation working on the
+			// text can be asked to (see DESIGN 2.4).
+			pm = PathModel::from_text(split_for(kind, before).path(before));
+			if let Err(f) = check_path_step(kind, before, after, &ops[i].op, unwound, &mut pm, stats) {
 				return violation(Prop::C10, f.oracle, idx, Some(i), opn, f.message, Some(before), f.expected.as_deref(), Some(after), sp, sa);
 			}
 			let s = split_for(kind, after);
